@@ -450,6 +450,8 @@ theorem BW.step {s : FleetStore} (hk : KT s) (h : BW s) (op : Op) : BW (s.step o
   cases op with
   | reservePut p => exact h'.of_b _ (reservePut_frame _ p)
   | reserveGet p => exact h'.of_b _ (reserveGet_frame _ p)
+  | reservePutP p pr => exact h'.of_b _ (reservePutP_frame _ p pr)
+  | reserveGetP p pr => exact h'.of_b _ (reserveGetP_frame _ p pr)
   | put p t x => exact h'.put p t x
   | get p t => exact h'.of_b _ (get_frame _ p t)
   | cancelPut t => exact h'.of_b _ (cancelPut_frame _ t)
